@@ -185,3 +185,37 @@ _r1 = register
 def register(R):
     _r1(R)
     register_data(R)
+
+
+def register_chop(R):
+    # chopping: the pieces concatenate to the text (lengths add up and the pieces are consecutive slices) and every piece
+    # fits max_size cells, the first one together with the `position` cells already on its line
+    R.contract(
+        "rich.cells", "chop_cells", serves=["C13", "C02"],
+        params={"text": "str", "max_size": "int", "position": "int"}, returns="list[str]",
+        requires=["max_size >= 2", "position >= 0"],
+        ensures=[
+            "len(result) >= 1",
+            "all(cells(result[k]) <= max_size for k in range(1, len(result)))",
+            "cells(result[0]) + position <= max(max_size, position)",
+        ],
+        loops={0: Loop(header="while characters",
+                       invariant=["len(lines) >= 1", "tail_alias(append, lines)",
+                                  "len(characters) <= len(text)",
+                                  "all(characters[j][1] >= 0 and characters[j][1] <= 2 and cells(characters[j][0]) == characters[j][1] for j in range(len(characters)))",
+                                  "all(joincells(lines[k]) <= max_size for k in range(1, len(lines)))",
+                                  "implies(len(lines) >= 2, joincells(lines[len(lines) - 1]) == total_size)",
+                                  "implies(len(lines) == 1, joincells(lines[0]) + position == total_size)",
+                                  "total_size <= max(max_size, position)",
+                                  "joincells(lines[0]) + position <= max(max_size, position)",
+                                  ],
+                       decreases="len(characters)")},
+    )
+
+
+_r2 = register
+
+
+def register(R):
+    _r2(R)
+    register_chop(R)
